@@ -228,3 +228,137 @@ Print Assumptions C06_until_fixed_point_halts.
 Print Assumptions C06_until_fixed_point_sound.
 Print Assumptions C06_until_fixed_point_1d.
 Print Assumptions C06_until_fixed_point_2d.
+
+(* ================================================================== every memoize mode (pure rules)
+   Via the callable-timesteps transparency theorems of C03 / C04 and the plain-engine theorems above.
+   1D: `memo` is the value of the memoize option, `dispatch memo = Some m` says it selects a mode;
+   `dyn_arr_of` projects (final predicate state, returned array, predicate argument log) of a
+   callable-timesteps call and `arr_of` the array of a fixed-count call.  2D: `m` is the mode,
+   `dyn_arr2_of` projects (returned array, predicate argument log); memoize=True additionally needs f
+   not to read masked cells.  In each theorem the fixed-count run is the run of the SAME mode. *)
+From CPL Require Import Model.Memo1D Model.Memo2D Proofs.C0506MemoProofs.
+Local Close Scope Z_scope.
+
+(* yes k times, then no: the call returns what the fixed-count call with timesteps = k+1 returns *)
+Theorem C06_all_modes_dynamic_spec_1d :
+  forall (f : list Z -> Z) (store : Z -> Z) (r : nat) (P : Type) (pred : P -> list (list Z) -> nat -> P * bool)
+         (memo : PyVal) (m : mode) k fuel p0 (hist : list (list Z)) (ps : nat -> P) rows pk,
+  dispatch memo = Some m -> 1 <= r <= length (last hist []) ->
+  arr_of (evolve1d_fixed (pure1 f) store memo r tt hist (S k)) = Ok (hist ++ rows) ->
+  ps 0 = p0 ->
+  (forall j, j < k -> pred (ps j) (last hist [] :: firstn j rows) (S j) = (ps (S j), true)) ->
+  pred (ps k) (last hist [] :: rows) (S k) = (pk, false) ->
+  k < fuel ->
+  dyn_arr_of (evolve1d_dynamic (pure1 f) store pred memo r fuel p0 tt hist)
+  = Some (Ok (pk, hist ++ rows, map (fun j => (last hist [] :: firstn (j - 1) rows, j)) (seq 1 (S k)))).
+Proof. intros f store r P pred memo m. exact (memo1d_dynamic_spec f store r P pred memo m). Qed.
+
+Theorem C06_all_modes_zero_steps_1d :
+  forall (f : list Z -> Z) (store : Z -> Z) (r : nat) (P : Type) (pred : P -> list (list Z) -> nat -> P * bool)
+         (memo : PyVal) (m : mode) fuel p0 (hist : list (list Z)) p1,
+  dispatch memo = Some m -> 1 <= r <= length (last hist []) -> 1 <= fuel ->
+  pred p0 [last hist []] 1 = (p1, false) ->
+  dyn_arr_of (evolve1d_dynamic (pure1 f) store pred memo r fuel p0 tt hist) = Some (Ok (p1, hist, [([last hist []], 1)])).
+Proof. intros f store r P pred memo m. exact (memo1d_zero_steps f store r P pred memo m). Qed.
+
+(* until_fixed_point: if the fixed-count run of k+1 rows (same mode) repeats for the first time at its
+   last step, the callable run performs exactly those k steps ... *)
+Theorem C06_all_modes_until_fixed_point_halts_1d :
+  forall (f : list Z -> Z) (store : Z -> Z) (r : nat) (memo : PyVal) (m : mode) k fuel (hist : list (list Z)) rows,
+  dispatch memo = Some m -> 1 <= r <= length (last hist []) -> 1 <= k ->
+  arr_of (evolve1d_fixed (pure1 f) store memo r tt hist (S k)) = Ok (hist ++ rows) ->
+  nth k (last hist [] :: rows) [] = nth (k - 1) (last hist [] :: rows) [] ->
+  (forall j, 1 <= j < k -> nth j (last hist [] :: rows) [] <> nth (j - 1) (last hist [] :: rows) []) ->
+  k < fuel ->
+  dyn_arr_of (evolve1d_dynamic (pure1 f) store (until_fixed_point zlist_eqb) memo r fuel tt tt hist)
+  = Some (Ok (tt, hist ++ rows, map (fun j => (last hist [] :: firstn (j - 1) rows, j)) (seq 1 (S k)))).
+Proof. intros f store r memo m. exact (memo1d_until_fixed_point_halts f store r memo m). Qed.
+
+(* ... and whatever it returns: k >= 1 new rows, the array of the fixed-count run of k+1 rows, last two
+   states equal, no earlier consecutive pair of states of this call equal *)
+Theorem C06_all_modes_until_fixed_point_sound_1d :
+  forall (f : list Z -> Z) (store : Z -> Z) (r : nat) (memo : PyVal) (m : mode) fuel (hist : list (list Z)) p out plog,
+  dispatch memo = Some m -> 1 <= r <= length (last hist []) ->
+  dyn_arr_of (evolve1d_dynamic (pure1 f) store (until_fixed_point zlist_eqb) memo r fuel tt tt hist) = Some (Ok (p, out, plog)) ->
+  exists k rows, 1 <= k < fuel /\ out = hist ++ rows /\ length rows = k /\
+    arr_of (evolve1d_fixed (pure1 f) store memo r tt hist (S k)) = Ok out /\
+    nth k (last hist [] :: rows) [] = nth (k - 1) (last hist [] :: rows) [] /\
+    (forall j, 1 <= j < k -> nth j (last hist [] :: rows) [] <> nth (j - 1) (last hist [] :: rows) []).
+Proof. intros f store r memo m. exact (memo1d_until_fixed_point_sound f store r memo m). Qed.
+
+Theorem C06_all_modes_dynamic_spec_2d :
+  forall (f : nbhd2 -> Z) (store : Z -> Z) (r : nat) (ty : nbhd_type) (R C : nat),
+  1 <= R -> 1 <= C -> r <= Nat.min R C ->
+  forall (P : Type) (pred : P -> list grid -> nat -> P * bool) (m : mode) k fuel p0 (hist : list grid)
+         (ps : nat -> P) rows pk,
+  (m = Memo -> forall n n', nb_mask n = nb_mask n' -> unmasked n = unmasked n' -> f n = f n') ->
+  length (last hist []) = R /\ Forall (fun row => length row = C) (last hist []) ->
+  arr2_of (evolve2d_mode_fixed (pure_rule2 f) store m r ty tt hist (S k)) = Ok (hist ++ rows) ->
+  ps 0 = p0 ->
+  (forall j, j < k -> pred (ps j) (last hist [] :: firstn j rows) (S j) = (ps (S j), true)) ->
+  pred (ps k) (last hist [] :: rows) (S k) = (pk, false) ->
+  k < fuel ->
+  dyn_arr2_of (evolve2d_mode_dynamic (pure_rule2 f) store pred m r ty fuel p0 tt hist)
+  = Some (hist ++ rows, map (fun j => (last hist [] :: firstn (j - 1) rows, j)) (seq 1 (S k))).
+Proof. exact memo2d_dynamic_spec. Qed.
+
+Theorem C06_all_modes_zero_steps_2d :
+  forall (f : nbhd2 -> Z) (store : Z -> Z) (r : nat) (ty : nbhd_type) (R C : nat),
+  1 <= R -> 1 <= C -> r <= Nat.min R C ->
+  forall (P : Type) (pred : P -> list grid -> nat -> P * bool) (m : mode) fuel p0 (hist : list grid) p1,
+  (m = Memo -> forall n n', nb_mask n = nb_mask n' -> unmasked n = unmasked n' -> f n = f n') ->
+  length (last hist []) = R /\ Forall (fun row => length row = C) (last hist []) -> 1 <= fuel ->
+  pred p0 [last hist []] 1 = (p1, false) ->
+  dyn_arr2_of (evolve2d_mode_dynamic (pure_rule2 f) store pred m r ty fuel p0 tt hist) = Some (hist, [([last hist []], 1)]).
+Proof. exact memo2d_zero_steps. Qed.
+
+Theorem C06_all_modes_until_fixed_point_halts_2d :
+  forall (f : nbhd2 -> Z) (store : Z -> Z) (r : nat) (ty : nbhd_type) (R C : nat),
+  1 <= R -> 1 <= C -> r <= Nat.min R C ->
+  forall (m : mode) k fuel (hist : list grid) rows,
+  (m = Memo -> forall n n', nb_mask n = nb_mask n' -> unmasked n = unmasked n' -> f n = f n') ->
+  length (last hist []) = R /\ Forall (fun row => length row = C) (last hist []) -> 1 <= k ->
+  arr2_of (evolve2d_mode_fixed (pure_rule2 f) store m r ty tt hist (S k)) = Ok (hist ++ rows) ->
+  nth k (last hist [] :: rows) [] = nth (k - 1) (last hist [] :: rows) [] ->
+  (forall j, 1 <= j < k -> nth j (last hist [] :: rows) [] <> nth (j - 1) (last hist [] :: rows) []) ->
+  k < fuel ->
+  dyn_arr2_of (evolve2d_mode_dynamic (pure_rule2 f) store (until_fixed_point zgrid_eqb) m r ty fuel tt tt hist)
+  = Some (hist ++ rows, map (fun j => (last hist [] :: firstn (j - 1) rows, j)) (seq 1 (S k))).
+Proof. exact memo2d_until_fixed_point_halts. Qed.
+
+Theorem C06_all_modes_until_fixed_point_sound_2d :
+  forall (f : nbhd2 -> Z) (store : Z -> Z) (r : nat) (ty : nbhd_type) (R C : nat),
+  1 <= R -> 1 <= C -> r <= Nat.min R C ->
+  forall (m : mode) fuel (hist : list grid) out plog,
+  (m = Memo -> forall n n', nb_mask n = nb_mask n' -> unmasked n = unmasked n' -> f n = f n') ->
+  length (last hist []) = R /\ Forall (fun row => length row = C) (last hist []) ->
+  dyn_arr2_of (evolve2d_mode_dynamic (pure_rule2 f) store (until_fixed_point zgrid_eqb) m r ty fuel tt tt hist) = Some (out, plog) ->
+  exists k rows, 1 <= k < fuel /\ out = hist ++ rows /\ length rows = k /\
+    arr2_of (evolve2d_mode_fixed (pure_rule2 f) store m r ty tt hist (S k)) = Ok out /\
+    nth k (last hist [] :: rows) [] = nth (k - 1) (last hist [] :: rows) [] /\
+    (forall j, 1 <= j < k -> nth j (last hist [] :: rows) [] <> nth (j - 1) (last hist [] :: rows) []).
+Proof. exact memo2d_until_fixed_point_sound. Qed.
+
+(* non-vacuity: the recursive 1D engine and the memoize=True 2D engine under until_fixed_point really
+   stop after three resp. two steps on non-constant trajectories *)
+Example C06_nonvacuous_all_modes :
+  let f := fun n : list Z => (lin_dot [1; 1; 0] n mod 2)%Z in
+  dyn_arr_of (evolve1d_dynamic (pure1 f) store_id (until_fixed_point zlist_eqb) (PStr StrLit.recursive_lit) 1 64 tt tt
+                [[1; 0; 0; 0]]%Z)
+  = Some (Ok (tt, [[1; 0; 0; 0]; [1; 1; 0; 0]; [1; 0; 1; 0]; [1; 1; 1; 1]; [0; 0; 0; 0]; [0; 0; 0; 0]]%Z,
+              map (fun j => ([1; 0; 0; 0]%Z :: firstn (j - 1) [[1; 1; 0; 0]; [1; 0; 1; 0]; [1; 1; 1; 1]; [0; 0; 0; 0]; [0; 0; 0; 0]]%Z, j))
+                  (seq 1 6))) /\
+  let g := [[1; 0; 0]; [0; 1; 0]; [0; 0; 0]]%Z in
+  let z := [[0; 0; 0]; [0; 0; 0]; [0; 0; 0]]%Z in
+  dyn_arr2_of (evolve2d_mode_dynamic (pure_rule2 (fun _ => 0%Z)) store_id (until_fixed_point zgrid_eqb) Memo 1 VonNeumann 64 tt tt [g])
+  = Some ([g; z; z], [([g], 1); ([g; z], 2); ([g; z; z], 3)]).
+Proof. cbv zeta. split; vm_compute; reflexivity. Qed.
+
+Print Assumptions C06_all_modes_dynamic_spec_1d.
+Print Assumptions C06_all_modes_zero_steps_1d.
+Print Assumptions C06_all_modes_until_fixed_point_halts_1d.
+Print Assumptions C06_all_modes_until_fixed_point_sound_1d.
+Print Assumptions C06_all_modes_dynamic_spec_2d.
+Print Assumptions C06_all_modes_zero_steps_2d.
+Print Assumptions C06_all_modes_until_fixed_point_halts_2d.
+Print Assumptions C06_all_modes_until_fixed_point_sound_2d.
